@@ -12,7 +12,7 @@ From SP Require Import Base.Sat Base.Bits Core.Card Core.CardProofs.
 From SP Require Import Logic.Formula.
 From SP Require Import Design.Flat Design.Layout Design.Sem.
 From SP Require Import Encode.Compile Encode.CodeSem Encode.Generic Encode.Blocks Encode.Runs
-     Encode.GridLemmas Encode.LayoutF1 Encode.F1Kinds Encode.F1Cross Encode.F1Deriv Encode.F1DerivC Encode.F1Sem
+     Encode.GridLemmas Encode.LayoutF1 Encode.F1Kinds Encode.F1Cross Encode.F1Deriv Encode.F1DerivC Encode.F1Sem Encode.F1Sustain
      Encode.F1CrossSem Encode.F1DerivSem Encode.F1InARow Encode.F1Sequential Encode.F1Excl.
 Import ListNotations.
 Close Scope Z_scope.
@@ -31,6 +31,7 @@ Definition Pc (c : fconstraint) (s : asg) : Prop :=
   match c with
   | FCross => Pcross fb s
   | FConsistency => Pcons fb s
+  | FSustain => Psust fb s
   | FDerivation d deps f => Pderiv_any fb d deps f s
   | FAtMost k f l wb => Patmost fb k f l wb s
   | FExactlyK k f l wb => Pexactlyk fb k f l wb s
@@ -62,6 +63,7 @@ Proof.
   intros fresh ct Hfr E. destruct c; cbn [Pc]; try (cbn [constraint_f1] in Hc; discriminate).
   - exact (step_cross fb HF1 HT fresh ct Hfr E).
   - exact (step_consistency fb HF1 HT fresh ct Hfr E).
+  - exact (step_sustain fb HF1 HT fresh ct Hfr E).
   - exact (step_deriv_any fb HF1 HT _ _ _ Hin fresh ct Hfr E).
   - exact (step_atmost fb HF1 HT _ _ _ _ Hc fresh ct Hfr E).
   - exact (step_atleast fb HF1 HT _ _ _ _ Hc fresh ct Hfr E).
@@ -101,7 +103,7 @@ Qed.
 
 Lemma constraint_sem s q c :
   onehot fb s q -> In c (fl_constraints fb) ->
-  match c with FCross | FConsistency | FDerivation _ _ _ => True | _ =>
+  match c with FCross | FConsistency | FSustain | FDerivation _ _ _ => True | _ =>
     (Pc c s <-> forallb (constraint_ok (code_sem fb) q) (code_constraint fb c) = true) end.
 Proof.
   intros Ho Hin. pose proof (f1_constraints fb Facts c Hin) as Hc.
@@ -125,9 +127,12 @@ Proof.
   - intros H.
     assert (Ho : onehot fb s (decode fb s)).
     { apply (pcons_onehot fb HF1). exact (H FConsistency (f1_has_consistency fb Facts)). }
+    assert (Hg : grouped fb (decode fb s)).
+    { destruct (f1_has_sustain fb Facts) as [Hone|Hsu]; [now apply grouped_trivial|].
+      apply (sustain_sem fb HF1 HT s _ Ho). exact (H FSustain Hsu). }
     assert (Hfo : forallb (fun p => factor_ok (code_sem fb) (decode fb s) (fst p) (snd p))
                           (index_list (s_factors (code_sem fb))) = true).
-    { apply (factors_sem fb HF1 HT s _ Ho). intros d deps f Hin. exact (H _ Hin). }
+    { apply (factors_sem fb HF1 HT s _ Ho Hg). intros d deps f Hin. exact (H _ Hin). }
     assert (Hne : NoExcl fb s).
     { apply (no_excluded_shown fb HF1 HT s (decode fb s) Ho); [|exact Hfo].
       intros p Hp. exact (H _ (f1_exclude_backed fb Facts p Hp)). }
@@ -145,11 +150,13 @@ Proof.
     { apply (no_excluded_shown fb HF1 HT s q Ho); [|exact Hfac].
       intros p Hp. pose proof (f1_exclude_backed fb Facts p Hp) as Hb.
       apply (constraint_sem s q _ Ho Hb). exact (Hcs _ Hb). }
+    pose proof (factors_grouped fb HF1 HT s q Ho Hfac) as Hg.
     pose proof (constraint_sem s q c Ho Hin) as K.
     destruct c; cbn [Pc]; try exact I; try (apply K; exact (Hcs _ Hin)).
     + unfold Pcross. apply (crossings_sem fb HF1 HT s q _ 0 Ho Hne (f1_crossings fb Facts)). exact Hcr.
     + exact (onehot_pcons fb s q Ho).
-    + exact (proj2 (factors_sem fb HF1 HT s q Ho) Hfac _ _ _ Hin).
+    + exact (proj2 (sustain_sem fb HF1 HT s q Ho) Hg).
+    + exact (proj2 (factors_sem fb HF1 HT s q Ho Hg) Hfac _ _ _ Hin).
 Qed.
 
 (** [onehot] (hence [Pall]) reads only the trial variables *)
@@ -184,7 +191,7 @@ Proof.
   destruct (applies (code_factor fb f fd) tr) eqn:Hap; [|reflexivity].
   replace (window_args (dec_act fb t) (code_factor fb f fd) (dwin fd w) tr)
     with (window_args (dec_act fb s) (code_factor fb f fd) (dwin fd w) tr); [reflexivity|].
-  apply (impl_window_ext fb HF1 HT _ _ f fd w tr W3 Hap Ew). intros d t' Hdd Ht'.
+  apply (impl_window_ext fb HF1 HT _ _ f fd w tr (impl_sustain fb HF1 HT f Hf Hn) W3 Hap Ew). intros d t' Hdd Ht'.
   pose proof (proj1 (Forall_forall _ _) Hd d Hdd) as Hds. cbv beta in Hds.
   destruct (sact_lappl fb HF1 d t' Hds) as [Hda _].
   rewrite !(dec_act_cell fb _ t' d ltac:(lia) (f1_act_lt fb HF1 d Hda)).
